@@ -380,7 +380,7 @@ class Indentation(afmformats.AFMForceDistance):
         elif (self._rating is None or
               self._rating[0] != curhash or
               self._rating[1] != regressor or
-              self._rating[2] != training_set or
+              _training_sets_differ(self._rating[2], training_set) or
               self._rating[3] != names or
               self._rating[4] != lda):
             # Perform rating
@@ -396,3 +396,14 @@ class Indentation(afmformats.AFMForceDistance):
             # Use cached rating
             rt = self._rating[-1]
         return rt
+
+
+def _training_sets_differ(ts1, ts2):
+    """Compare training sets given as label, path, or tuple (X, y)"""
+    if isinstance(ts1, tuple) or isinstance(ts2, tuple):
+        # in-memory training sets contain arrays; `!=` is ambiguous
+        if (not isinstance(ts1, tuple) or not isinstance(ts2, tuple)
+                or len(ts1) != len(ts2)):
+            return True
+        return not all(np.array_equal(a1, a2) for a1, a2 in zip(ts1, ts2))
+    return ts1 != ts2
